@@ -147,8 +147,9 @@ impl TypeInfo for HandWs {
     type Identity = Self;
     fn type_info() -> Type {
         Type::builder()
-            .path(Path::new("HandWs", "vuniverse::u1"))
-            .type_params(vec![TypeParameter::new(" T ", Some(meta_type::<i64>())), TypeParameter::new("", None)])
+            .path(Path::from_segments(["vuniverse", "r#mod", "r#HandWs"]).unwrap())
+            // a skipped parameter BEFORE a concrete one, and another one after it
+            .type_params(vec![TypeParameter::new("", None), TypeParameter::new(" T ", Some(meta_type::<i64>())), TypeParameter::new("S", None), TypeParameter::new("U", Some(meta_type::<char>()))])
             .docs_always(&["  two leading", "trailing  ", "\ttab", "", " ", "é✓ \"quoted\" \\ backslash", "line\nbreak"])
             .variant(
                 Variants::new()
